@@ -4,7 +4,8 @@
                   with scale = 16 * ndim * max|value| / min(cell)^order  (rounding is ~1e-16 of that scale,
                   a wrong coefficient, axis or component is ~1 of it). *)
 From Coq Require Import Qcanon.
-From DF Require Import Prelude FieldK NDArray Diff Calculus.
+From DF Require Import Prelude FieldK NDArray Diff.
+From DF Require Export Calculus.
 Open Scope Q_scope.
 
 Definition c05_tol : Q := 1 # 1000000000.
